@@ -514,3 +514,34 @@ def c20(c):
     c.partial = ["argument marshalling through the CPython API (parse_options, parse_events, extract_float_array, PythonIVP callbacks) is not modelled: it is exercised by the X-py co-simulation only (list/ndarray/tuple inputs, bare or listed events, args, constant/callable Jacobian, omitted tolerances, method aliases)",
                  "the layout model is specification-shaped (Array.ofFn), the grouping model is a list transcription of group_columns; both are tied to the extension module by X-py, not by the translator",
                  "'exactly the numbers the Rust solve_ivp produces' is decided per case by X-py (bit-for-bit, problems with identical operation order on both sides), not by a theorem"]
+
+
+# ---------------------------------------------------------------------------------------------- C15 (mass / storages)
+C15_THEOREMS = ["Mat.c15_default_mass_identity", "Mat.c15_default_mass_spec", "Mat.c15_storage_independence", "Mat.defaultMassLoop_spec"]
+
+
+def c15(c):
+    import re
+    common_proof(c, "IvpModel.Props.C15", C15_THEOREMS)
+    # the solvers read and write `jac` / `mass` only through (row, col) indexing
+    touched = {}
+    for fn in ("radau.rs", "bdf.rs"):
+        src = open(os.path.join(REPO, "src", "methods", fn)).read()
+        uses = sorted(set(re.findall(r"\b(?:jac|mass)\s*\.\s*([A-Za-z_]+)", src)))
+        touched[fn] = uses
+        bad = [u for u in uses if u not in ("clone",)]
+        if bad:
+            c.violation("static-fact", "%s touches jac/mass other than through [(r, c)]: .%s" % (fn, ", .".join(bad)),
+                        {"finding_key": "c15-direct-access", "file": fn, "members": bad, "theorem": "Mat.c15_storage_independence assumes reads go through get"}, False)
+    c.monitors["matrix_access"] = {"members_used": touched}
+    if c.build_harness() and c.build_driver():
+        if c.tier == "quick":
+            c.stream("xmatrix", ["xmatrix", c.seed, 300, 6, 2], "matrix")
+        else:
+            c.stream("xmatrix", ["xmatrix", c.seed, 6000, 8, 3], "matrix")
+        generic_monitor(c, "mass_check", ["mass-check", c.seed, 40 if c.tier == "quick" else 800], "ms")
+    c.cov["samples"] += [{"theorem": "Mat.c15_default_mass_identity",
+                          "statement": "∀ n s, ∃ B, defaultMass (fromStorage n n s) = some B ∧ WF B ∧ ∀ i j < n, B.get i j = some (if i = j then 1 else 0)"}]
+    c.partial = ["Radau's Newton iteration with a mass matrix (E1/E2 assembly, M-products) is not modelled: 'M y' = f agrees with y' = M^-1 f', the DAE residual and analytic-vs-FD agreement are decided per input by mass-check on the real solvers (tridiagonal linear systems n = 1..8 with tridiagonal mass, one index-1 DAE family)",
+                 "bit-identity across storages is a theorem about reads (Mat.get) plus the source-text fact that the solvers only index; the runs themselves are compared bitwise by mass-check",
+                 "index-2/3 scaling and the nind partition are not covered"]
